@@ -2,6 +2,7 @@ package main
 
 import (
 	"go/ast"
+	"go/token"
 	"go/types"
 	"sort"
 	"strings"
@@ -14,7 +15,7 @@ func init() {
 		Technique: "table extraction from the source's own dispatch tables (composite-key switches, timing-table literals) compared with a frozen bank state machine + issue-through-ready provenance",
 		Explanation: "Decides on mem/dram: (1) the required-command table equals the bank state machine — closed bank: any column command requires ACTIVATE; open bank: the command itself iff the open row matches, else PRECHARGE; (2) startCommand's transitions: ACTIVATE opens the bank on the command's row, PRECHARGE and auto-precharge column commands close it, plain reads/writes leave it open; " +
 			"(3) getReadyCommand returns a command only when the countdown of the *required* kind is zero, and every command the scheduler path hands to issue derives from getReadyCommand (no path issues a queued command without the timing test); issue applies startCommand and updateTiming to the command it issues on every issuing path; " +
-			"(4) the same-bank timing table has ACT→{RD,WR,RDA,WRA,PRE}, PRE→ACT, RD/WR→PRE and RDA/WRA→ACT entries whose values derive from tRCD, tRAS, tRP, tRTP and tWR respectively; countdowns only ever decrease by one per tick and are raised (never lowered) by updateTiming.",
+			"(4) the same-bank timing table has ACT→{RD,WR,RDA,WRA,PRE}, PRE→ACT, RD/WR→PRE and RDA/WRA→ACT entries whose values derive from tRCD, tRAS, tRP, tRTP and tWR respectively; countdowns only ever decrease by one per tick and are raised (never lowered) by updateTiming. (timing-reaches-all-banks) updateAllBankTiming walks the whole flat bank array, from the first entry to len(Entries), and addresses entries only inside that loop.",
 		NotDecided:  "numeric separations on actual command streams; refresh; tFAW arithmetic; data correctness.",
 		Assumptions: []string{"JEDEC-style bank state machine as frozen in the rule"},
 	}, runC22)
@@ -60,6 +61,7 @@ func compositeKeySwitches(fd *ast.FuncDecl) [][]keyedClause {
 }
 
 func runC22(c *Ctx) {
+	timingReachesAllBanksRule(c, "timing-reaches-all-banks")
 	p := c.P
 	column := []string{"cmdKindRead", "cmdKindReadPrecharge", "cmdKindWrite", "cmdKindWritePrecharge"}
 	// (1) required command
@@ -476,4 +478,87 @@ func constVal(p *Program, rel, name string) string {
 		return cst.Val().String()
 	}
 	return "?"
+}
+
+// timingReachesAllBanksRule: updateAllBankTiming hands the gaps that a command
+// imposes to every bank entry and lets the per-entry classification (same bank,
+// same group, same rank, other rank) pick the applicable list. The walk must
+// cover the whole flat bank array: a window computed from the command's location
+// is only correct if its arithmetic matches the array layout, which nothing here
+// can check — a bank left out of the walk never receives tRCD/tRAS/tRC/tRP from
+// its own rank's commands.
+func timingReachesAllBanksRule(c *Ctx, rule string) {
+	p := c.P
+	f := c.fn(rule, "mem/dram", "", "updateAllBankTiming")
+	if f == nil {
+		return
+	}
+	fn := p.SSAFunc(f)
+	entries := c.field(rule, "mem/dram", "bankStatesFlat", "Entries")
+	if fn == nil || entries == nil {
+		c.Unknown(rule, "mem/dram.updateAllBankTiming", p.Decl(f).Pos(), "anchor not found")
+		return
+	}
+	isLenEntries := func(v ssa.Value) bool {
+		call, ok := v.(*ssa.Call)
+		if !ok {
+			return false
+		}
+		bi, isB := call.Call.Value.(*ssa.Builtin)
+		if !isB || bi.Name() != "len" || len(call.Call.Args) != 1 {
+			return false
+		}
+		u, isU := call.Call.Args[0].(*ssa.UnOp)
+		if !isU {
+			return false
+		}
+		g := FieldOf(u.X)
+		return g != nil && sameObj(g, entries)
+	}
+	var full *loopInfo
+	for _, l := range loopsOf(fn) {
+		ifi, ok := l.header.Instrs[len(l.header.Instrs)-1].(*ssa.If)
+		if !ok {
+			continue
+		}
+		cmp, isCmp := ifi.Cond.(*ssa.BinOp)
+		if !isCmp || cmp.Op != token.LSS || !isLenEntries(cmp.Y) {
+			continue
+		}
+		// the index starts at the first element
+		idx := cmp.X
+		if bo, isBO := idx.(*ssa.BinOp); isBO && bo.Op == token.ADD && constIs(bo.Y, "1") {
+			idx = bo.X // range form: hidden counter starts at -1
+		}
+		ph, isPhi := idx.(*ssa.Phi)
+		if !isPhi {
+			continue
+		}
+		fromStart := false
+		for _, e := range ph.Edges {
+			if constIs(e, "0") || constIs(e, "-1") {
+				fromStart = true
+			}
+		}
+		if fromStart {
+			full = l
+		}
+	}
+	why := ""
+	if full == nil {
+		why = "updateAllBankTiming has no loop that runs from the first entry to len(BankStates.Entries): the walk over the banks is windowed, so banks outside the window never receive the timing gaps the command imposes on them"
+	} else {
+		for _, b := range fn.Blocks {
+			for _, in := range b.Instrs {
+				if ia, ok := in.(*ssa.IndexAddr); ok {
+					if u, isU := ia.X.(*ssa.UnOp); isU {
+						if g := FieldOf(u.X); g != nil && sameObj(g, entries) && !full.blocks[b] {
+							why = "a bank entry is addressed outside the loop over all entries (" + p.Rel(in.Pos()) + ")"
+						}
+					}
+				}
+			}
+		}
+	}
+	c.Check(why == "", rule, "mem/dram.updateAllBankTiming", p.Decl(f).Pos(), "every bank entry is visited; the per-entry classification selects the applicable gaps", why)
 }
